@@ -151,7 +151,9 @@ def run_unit(name, extra_args=(), variant=None, mutate_text=None, rlimit=None, s
     ur.text, ur.regions = text, regions
     os.makedirs(BUILD, exist_ok=True)
     suffix = "" if not variant else "_" + variant
-    path = os.path.join(BUILD, f"{name}{suffix}.rs")
+    # one generated file per (check, unit, variant): checks of different properties may run side by side
+    tag = os.environ.get("VERIF_BUILD_TAG", "")
+    path = os.path.join(BUILD, f"{tag + '__' if tag else ''}{name}{suffix}.rs")
     with open(path, "w", encoding="utf-8") as f:
         f.write(text)
     cmd = ["verus", path, "--output-json", "--time-expanded", "--multiple-errors", "30"]
